@@ -437,7 +437,7 @@ def compare(case, opts, exp, R):
         return out
     nondeg = [(it, ip) for it in range(nT) for ip in range(nP) if classes[it * nP + ip] not in degenerate]
     fail_nd = [x for x in failing if classes[x[0] * nP + x[1]] not in degenerate]
-    base_pred = hazards(case)
+    base_pred = []
     if case.get("dtype", "float64") != "float64":
         base_pred.append(case["dtype"])
     if opts.get("packed"):
@@ -450,7 +450,7 @@ def compare(case, opts, exp, R):
         cls = classes[it * nP + ip]
         e, g, t = exp_q[it, ip], got_q[it, ip], tol[it, ip]
         clause = "missing" if cls == "nan" else ("zero" if cls == "zero" else "efth-value")
-        pred = list(base_pred)
+        pred = (hazards(case) if clause == "efth-value" else []) + base_pred
         if clause == "efth-value" and len(fail_nd) < len(nondeg):
             pred.append("class=" + "+".join(sorted(set(classes[a * nP + b] for a, b in fail_nd))))
         msg = "spectrum time %d position %d (class %s): written %s read %s (tolerance %s)" % (
